@@ -95,7 +95,7 @@ def decide(pid, tier, seed, jobs, record, no_bounded, t0):
     reg = R.build_registry()
     fns = sorted(q for q, c in reg.contracts.items() if pid in c.properties and not c.trusted)
     from contracts import sd_inv
-    if any("succession_diagram" in f or "_sd_algorithms" in f for f in fns):
+    if any("succession_diagram" in f or "_sd_algorithms" in f or "petri_net_translation" in f for f in fns):
         fns += ["schema:" + n for n in sd_inv.schema_lemmas()]     # lemmas proved by SMT on every run
     timeout_ms = 10000 if tier == "quick" else 60000
     results = R.run(fns, jobs=jobs, timeout_ms=timeout_ms) if fns else []
